@@ -34,6 +34,7 @@ REPO = os.path.join(SCRATCH, "repo") if SCRATCH else "/repo"
 TLAJAR = "/opt/veriftools/tla/tla2tools.jar"
 CMJAR = "/opt/veriftools/tla/CommunityModules-deps.jar"
 GMVERIF = os.path.join(HARNESS, "target", "release", "gmverif")
+GMVERIF_NDA = os.path.join(HARNESS, "target", "nda", "gmverif")        # profile without debug assertions / overflow checks
 
 
 class ToolError(Exception):
@@ -97,7 +98,10 @@ def build_harness():
                            capture_output=True, text=True)
         if r.returncode != 0:
             raise ToolError("harness build failed (does /repo still compile with --cfg gm_rs_verif?):\n" + r.stderr[-4000:])
-        log("harness built in %.1fs" % (time.time() - t0))
+        r = subprocess.run(["cargo", "build", "--profile", "nda", "--offline", "--quiet"], cwd=HARNESS, env=env, capture_output=True, text=True)
+        if r.returncode != 0:
+            raise ToolError("harness build (profile nda) failed:\n" + r.stderr[-4000:])
+        log("harness built in %.1fs (profiles release + nda)" % (time.time() - t0))
 
 
 TLC_STATES = re.compile(r"(\d+) states generated, (\d+) distinct states found")
@@ -167,8 +171,8 @@ def run_model(name, cfg=None, expect="ok", workers=16, timeout=3600, heap="8g", 
     return dict(r, status="ok")
 
 
-def run_driver(suite, tier, seed, out, plan=None, only_sess=None, timeout=3600):
-    cmd = [GMVERIF, "drive", suite, "--tier", tier, "--seed", str(seed), "--out", out]
+def run_driver(suite, tier, seed, out, plan=None, only_sess=None, timeout=3600, profile="release"):
+    cmd = [GMVERIF if profile == "release" else GMVERIF_NDA, "drive", suite, "--tier", tier, "--seed", str(seed), "--out", out]
     if plan:
         cmd += ["--plan", plan]
     if only_sess:
